@@ -103,7 +103,7 @@ func (H) Generate(rng *simrt.Rand, prop, tier string) (any, simrt.Config) {
 		}
 		sc.Dials = append(sc.Dials, d)
 	}
-	sc.Action = []string{"close", "close", "close", "cancel", "none"}[rng.Intn(5)]
+	sc.Action = []string{"close", "close", "close", "cancel", "none", "deadline"}[rng.Intn(6)]
 	switch rng.Pick(1, 3, 3, 3) {
 	case 0:
 		sc.CloseBefore = sc.Action == "close"
@@ -113,6 +113,13 @@ func (H) Generate(rng *simrt.Rand, prop, tier string) (any, simrt.Config) {
 		sc.WaitNs = int64(time.Duration(rng.Intn(6000)) * time.Millisecond)
 	case 3:
 		sc.WaitNs = int64(rng.Intn(40)) * sc.MaxNs / 2
+	}
+	if sc.Action == "deadline" {
+		// the caller's context carries a deadline that expires at WaitNs
+		sc.CloseBefore, sc.WaitSteps = false, 0
+		if sc.WaitNs <= 0 {
+			sc.WaitNs = int64(time.Duration(1+rng.Intn(4000)) * time.Millisecond)
+		}
 	}
 	return sc, cfg
 }
@@ -321,15 +328,21 @@ func (H) Execute(x *common.Exec, s any) {
 	}
 	c := client.Reconnect(base, func() { w.rec("disconnect", -1, "") }, func() { w.rec("reset", -1, "") })
 	ctx, cancel := context.WithCancel(context.Background())
+	if sc.Action == "deadline" {
+		ctx, cancel = context.WithTimeout(context.Background(), time.Duration(sc.WaitNs))
+	}
 	defer cancel()
 	var subErr, closeErr error
 	var subRet, subRetNs, closeInv, closeInvNs, closeRet int64
 	var subDone, closeDone bool
 	doClose := func() {
 		closeInv, closeInvNs = simrt.Stamp(), int64(x.R.Now())
-		if sc.Action == "cancel" {
+		switch sc.Action {
+		case "cancel":
 			cancel()
-		} else {
+		case "deadline":
+			// the deadline expires at this very instant; nothing to call
+		default:
 			closeErr = c.Close()
 		}
 		closeRet = simrt.Stamp()
